@@ -868,8 +868,10 @@ def crate_seeds(wd, rnd):
     return b, exps, encs
 
 
-SCHED_BUFS = [[1], [2], [3], [7], [0, 1], [0, 5, 0], [4096], [1, 0, 2, 0, 3], [65536], [5, 1]]
-SCHED_UNDER = [{}, {"max": 1}, {"max": 2}, {"max": 3}, {"max": 7}, {"list": [1, 5, 2]}, {"list": [3, 1]}]
+# caller buffer schedules (cycled) and underlying short-read plans; they include a small read followed by a large one and
+# sizes around the 16-byte cipher block (a keystream/block boundary crossed in the middle of a call)
+SCHED_BUFS = [[1], [2], [3], [7], [0, 1], [0, 5, 0], [4096], [1, 0, 2, 0, 3], [65536], [5, 1], [5, 4096], [10, 16, 100], [1, 17], [15, 16], [17, 15, 33], [16]]
+SCHED_UNDER = [{}, {"max": 1}, {"max": 2}, {"max": 3}, {"max": 7}, {"list": [1, 5, 2]}, {"list": [3, 1]}, {"list": [5, 4096]}, {"list": [3, 16, 1, 64]}, {"max": 16}, {"max": 17}]
 
 
 def c09(tier):
